@@ -35,6 +35,7 @@ RULE = (
     "that holds only part of a message and arrived in time, the next fetch of that run asks for the same offset with a larger "
     "buffer, and the run does not fail with ConsumerFetchSizeTooSmall while the maximum is not reached; non-trivial = the buffer "
     "grew or sat at its maximum; distinct = distinct trace."
+    ' A third deterministic cost measure counts the bytes a decoder copies by slicing its input (bytes subclass whose slices count themselves): at most 2048 + 8*(len + decompressed), inputs of 64 bytes and more; the hostile count x negative-length enumeration covers every response kind at every seed.'
 )
 ASSUMPTIONS = [
     "CRC-32 detects every single-bit error and every burst of <= 32 bits, so any yielded altered content is a violation",
